@@ -82,6 +82,7 @@ def slices(prop, tier, seed):
         S.append(("S-plan", W.s_plan(pp if th else pp_small, seed,
                                      max_n=3 if th else 2)))
         if th:
+            S.append(("S-cw", W.s_cw(seed, k_max=3)))
             S.append(("S-time", W.s_time(gp, seed)))
             S.append(("S-var", W.s_var(gp, seed)))
             S.append(("S-closed", W.s_closed(g, seed)))
@@ -162,11 +163,17 @@ def slices(prop, tier, seed):
         if th:
             S.append(("S-time", W.s_time(gp, seed)))
             S.append(("S-closed", W.s_closed(g, seed)))
+    elif prop == "C15":
+        S.append(("S-cw", W.s_cw(seed, k_max=3, full=th)))
+        if th:
+            S.append(("S-cw4", (w for w in W.s_cw(seed, k_max=4, full=False)
+                                if " k=4 " in w["tag"] and "load=preload" in w["tag"])))
     elif prop == "C12":
         enf = {k: v for k, v in pp.items() if v.get("enforce_deadlines")}
         S.append(("S-plan", W.s_plan(enf if th else {k: enf[k] for k in pp_small},
                                      seed, max_n=3 if th else 2,
                                      slacks=((0, 0), (50, 50), (100, 100)))))
+        S.append(("S-cw", W.s_cw(seed, k_max=3 if th else 2, full=th)))
     elif prop == "C19":
         S.append(("S-closed", W.s_closed(g, seed)))
         S.append(("S-closed-plan", W.s_closed({k: pp[k] for k in ("ILP", "TSG+drop",
@@ -194,6 +201,8 @@ REQUIRED = {
     "C06": ("cancellations", "graphs_finished", "dead_tasks"),
     "C07": ("conditional_completions",),
     "C18": ("offers", "offered_tasks"),
+    "C15": ("clockwork_invocations", "clockwork_batches",
+            "clockwork_batches_of_two_or_more", "clockwork_cancellations"),
     "C10": ("schedule_calls_judged", "placements_judged", "jointly_feasible_decisions"),
     "C12": ("finishes_judged_against_deadline",),
     "C19": ("closed_loop_runs", "closed_loop_rereleases",
